@@ -115,6 +115,13 @@ def PC(n, **kw):
     hints.update(kw.pop("unwindset", {}))
     return H(n, "sess_calls", unwindset=hints, **kw)
 
+PC_GLUE = [PC("pc_rollback_and_save_dense", unwindset={"drop_glue": 2}), PC("pc_prediction_gate", unwindset={"drop_glue": 2})]
+PC_ADJUST = [PC(n, unwindset={"drop_glue": 2, "verif_q": 9}) for n in names_in("sessions__p2p_session@calls.rs", "pc_adjust_.*")]
+PC_LOCKSTEP = [PC("pc_lockstep_frame", unwindset={"drop_glue": 2, "verif_q": 9})]
+PC_DELAY = [PC("pc_delay_1_to_0", unwindset={"drop_glue": 2, "verif_q": 9}, timeout=1200)]
+Q_DELAY2 = [Q("q_delay_twice_1_2_2_control"), Q("q_delay_twice_2_0_0_control"),
+            Q("q_delay_twice_1_2_3", finding="F4"), Q("q_delay_twice_2_0_3", finding="F4"), Q("q_delay_twice_1_3_1", finding="F4")]
+PE_TWO = [H("pe_two_disconnects_one_poll", "sess_ep", timeout=900, mem=12, unwindset={"extend_with": 9})]
 PC_INPUT = [PC("pc_input_event")]
 PC_DISC = [PC("pc_disconnect_player_contract"), PC("pc_disconnected_event")]
 PC_EVENTS = [PC("pc_event_forwarding_and_cap"), PC("pc_wait_recommendation_respects_cap"), PC("pc_running_iff_all_synchronized")]
@@ -139,10 +146,10 @@ def P(pid, harnesses, claim, note, **kw):
     d.update(kw)
     PROPERTIES[pid] = d
 
-P("C01", Q_ADD + Q_INPUT + Q_MISC + S_MIN + S_CONF + U_STREAM_Q + U_STREAM_T,
+P("C01", Q_ADD + Q_INPUT + Q_MISC + S_MIN + S_CONF + PC_GLUE[:1] + PC_ADJUST[:2] + U_STREAM_Q + U_STREAM_T + PC_ADJUST[2:],
   "Kernels of the confirmed-timeline property decided on the real code: (Q, inductive, any history/ring wrap) add_input stores gaplessly, flags the earliest frame whose real input differs from the prediction handed out, input() hands out stored values as Confirmed; discard never drops a frame that can still be requested; (S) the rollback target is the earliest of all mispredictions and the disconnect frame; confirmed-frame bookkeeping keeps every frame a rollback can ask for; (U) the receiver delivers exactly the frames after its newest one, once, in order, with the packet's values, and acks release exactly the acknowledged prefix.",
   "Session-level composition (several ticks of P2PSession from its initial state) is outside what CBMC can symbolically execute here (a 4-tick run needs > 2M symex steps and > 40 GB); the claim is the conjunction of the component contracts, not an end-to-end run. Ring size 8 (quick) / 16 (thorough) instead of 128; u8 inputs; packets of 1-2 decoded inputs.")
-P("C02", S_CELLS + Q_MISC + S_CONF,
+P("C02", S_CELLS + Q_MISC + S_CONF + PC_GLUE[:1] + PC_ADJUST,
   "Saved-state ring: after saving w+1 consecutive frames (the most a session holds) each of the w frames still open to rollback is loadable and returns exactly what was saved for it, for w = 1,2,3 and any base frame; load_frame moves the frame counter to the loaded frame; queue windows keep every frame from (confirmed-1) on.",
   "The request-list shape of whole advance_frame calls is decided only through these component contracts (see C01 note).")
 P("C03", Q_INPUT + Q_ADD + S_INPUTS,
@@ -151,7 +158,7 @@ P("C03", Q_INPUT + Q_ADD + S_INPUTS,
 P("C05", U_LOSTACK + U_STREAM_Q + U_HANDSHAKE + U_STREAM_T,
   "Lost-ack lemma on the real on_input: a retransmission whose base frame the receiver has already pruned (1/3/5 lost acks for prediction window 0/1/2) is answered with an ack for the receiver's newest frame, so the sender's base moves forward; acks release exactly the acknowledged prefix and leave the pending outputs starting right after the new base; duplicates/overlaps are skipped without double delivery; handshake: one inductive step from any Synchronizing state on any SyncReply, retry timer.",
   "Bounded liveness over multi-packet fault schedules with two live endpoints is not run (cost); the lemma plus the ack/stream contracts are its inductive core.")
-P("C07", U_TIMERS + S_MIN + S_INPUTS + PC_DISC,
+P("C07", U_TIMERS + S_MIN + S_INPUTS + PC_DISC + PE_TWO,
   "Timers on the real poll(): NetworkInterrupted iff not yet announced and silence > notify delay (payload timeout-notify), Disconnected iff not yet sent and silence > timeout, never earlier, each once, in this order; rollback target includes the disconnect frame (min); a disconnected player's inputs are default/Disconnected exactly for frames after its last real one.",
   "The survivor's multi-tick timeline after a drop is covered only through these contracts.")
 P("C08", U_MALFORMED + U_LIVENESS + [h for h in K_QUICK if h["name"].startswith(("k_rle_stage_total", "k_rle_guard", "k_delta_total"))],
@@ -163,7 +170,7 @@ P("C09", U_CHECKSUM + PC_CHECKSUM,
 P("C10", PE_CUTOFF + S_MIN + PC_INPUT,
   "Cut-off agreement kernel on the real update_player_disconnects with real endpoints: when a surviving peer gossips that a player is disconnected as of frame m and this peer holds its inputs up to L, this peer adopts min(L, m), schedules the resimulation from the next frame and does not re-arm it on the next tick.",
   "KNOWN FINDING F3: for m < L the unchanged tree keeps last_frame = L (see known_findings.json).")
-P("C11", Q_DELAY + Q_ADD,
+P("C11", Q_DELAY + Q_DELAY2 + Q_ADD + PC_DELAY,
   "InputQueue delay change in steady state: the fills set_frame_delay announces are exactly the frames and values the queue stores when the next input is added (gapless, repeat-last); a decrease drops the next submission.",
   "Sequences of changes before the queue has drained are a known finding candidate (F4) not yet witnessed by a harness.")
 P("C12", U_HANDSHAKE + U_LIVENESS + U_NORESUME + U_TIMERS + U_CAP + PC_EVENTS,
@@ -174,7 +181,7 @@ P("C14", K_QUICK + K_THOROUGH, PROPERTIES["C14"]["claim"], PROPERTIES["C14"]["no
 P("C15", M_ALL + U_QUALITY + PC_WAIT,
   "Kernel only: TimeSync average (f32 bit-precise) within one frame of the true mean difference and within one of k in a steady k-frame lead; frame-advantage formula; quality report/reply bookkeeping (ping = now - echoed timestamp, what one side reports as local is the other's remote); network_stats error/values contract.",
   "The closed-loop settling claims need >= 30 frames of two live sessions: outside reach.", level="other")
-P("C17", U_HANDSHAKE,
+P("C17", U_HANDSHAKE + PE_TWO,
   "Handshake behaviour is the same function of message order for every value of the random nonces (nonces symbolic in the inductive step).",
   "Hash-order independence (solver-chosen permutations of map iteration) not yet built.")
 P("C18", U_CAP + U_CHECKSUM + U_STREAM_Q + Q_ADD + PC_EVENTS[:2],
@@ -190,4 +197,6 @@ P("C13", T_UNIT,
 P("C16", PC_MISUSE + PC_DISC[:1],
   "Run-time misuse on the real P2PSession: input for a remote/unknown handle, delay change or stats for the wrong player type, advancing with the local input missing or before synchronisation, disconnecting a local/unknown/already disconnected player (also via the sibling handle of the same address) return the documented error and leave frame counter, event queue, pending inputs, statuses and send queues unchanged.",
   "The SessionBuilder half of the property (accepted configurations == documented ones) is NOT decided: the by-value builder with three endpoint maps exceeds 25 min of symbolic execution per call sequence and triggers a Kani internal compiler error with the inline container model (probes/attempted/README.md).")
-NOT_APPLICABLE["C04"] = "harnesses for this property are still being built in this phase; no claim is made yet"
+P("C04", PC_GLUE[1:] + PC_LOCKSTEP + PC_ADJUST + S_CELLS,
+  "Prediction gate of the real advance_rollback_frame (rollback and local-input registration stubbed) from ANY frame counters, windows 1..3, dense and sparse saving: a new frame is simulated iff current - min(confirmed_frame(), current[, last saved]) < max_prediction (nothing confirmed counts as frame -1), a stalled call leaves the frame unchanged and returns no AdvanceFrame - so a peer starved for arbitrarily long never runs more than the window ahead; rollbacks load a frame inside the window whose cell holds it; lockstep (window 0): a frame is simulated iff every connected player's input for it has arrived, only with Confirmed/Disconnected inputs, never Save/Load.",
+  "The gate harness stubs handle_rollback_and_save, register_local_inputs (its effect on the local newest frame is mimicked) and the spectator feed; windows 0..3 instead of 0..12 (the gate is parametric in the window).")
